@@ -69,6 +69,9 @@ class Check:
         per_rule = {}
         for ob in self.obs:
             per_rule[ob[0]] = per_rule.get(ob[0], 0) + 1
+        if os.environ.get('NOPSA_MARGINS'):
+            for rid, minimum in sorted(self.counts.items()):
+                print('MARGIN %s %s sites=%d minimum=%d' % (self.pid if hasattr(self, 'pid') else '', rid, per_rule.get(rid, 0), minimum))
         for rid, minimum in self.counts.items():
             if per_rule.get(rid, 0) < minimum:
                 self.broken.append((rid, '-', 'rule matched %d sites, fewer than the %d confirmed on the reference tree'
